@@ -153,6 +153,11 @@ impl Profile {
     }
 }
 
+/// companions of a field name `x` that a user may well declare next to it and that a future version of the macro
+/// might want for generated items of its own
+pub const NAME_SUFFIXES: [&str; 16] = ["_raw", "_mask", "_bits", "_shift", "_width", "_offset", "_mut", "_or", "_lsb", "_msb", "_value", "_default", "_count", "_range", "_unchecked", "_checked"];
+pub const NAME_PREFIXES: [&str; 14] = ["try_with_", "try_set_", "get_", "is_", "has_", "clear_", "toggle_", "raw_", "update_", "modify_", "read_", "write_", "mask_", "with_raw_"];
+
 pub const ARB_BOUNDARY: [u32; 22] = [1, 2, 3, 4, 5, 7, 9, 10, 12, 15, 17, 24, 31, 33, 48, 63, 65, 96, 100, 120, 126, 127];
 
 pub fn choose_base(s: &mut Src, mode: BaseMode) -> u32 {
@@ -273,7 +278,8 @@ pub fn gen_enum(s: &mut Src, name: &str, bits: u32, plain: bool) -> EnumDecl {
         };
     }
     // non-exhaustive: random distinct discriminants, always trying 0, max and neighbours
-    let max_variants = if bits >= 5 { 12 } else { (1u32 << bits) - 1 };
+    // mostly up to 12 variants; one enum in five (of at least 6 bits) has up to 40
+    let max_variants = if bits >= 6 && s.chance(1, 5) { 40 } else if bits >= 5 { 12 } else { (1u32 << bits) - 1 };
     let n = s.range(1, max_variants.max(1));
     let mut discs: Vec<u128> = Vec::new();
     let cands = [0u128, m, m - 1.min(m), 1 & m, m >> 1, (m >> 1) + 1];
@@ -303,8 +309,10 @@ pub fn gen_enum(s: &mut Src, name: &str, bits: u32, plain: bool) -> EnumDecl {
             style,
         });
     }
-    if conditional && s.chance(1, 2) {
-        // a disabled variant, possibly sharing a discriminant with an enabled one
+    let mut twins = 0;
+    while conditional && twins < 4 && s.chance(1, 2) {
+        twins += 1;
+        // a disabled variant (up to four of them), possibly sharing a discriminant with an enabled one
         let d = if s.chance(2, 3) { discs[s.below(discs.len() as u32) as usize] } else { s.u128() & m };
         let at = s.below(variants.len() as u32 + 1) as usize;
         variants.insert(
@@ -360,7 +368,12 @@ fn inner_layout(s: &mut Src, name: &str, bits: u32, debug: bool) -> Layout {
             });
         }
     }
-    Layout { name: name.to_string(), base_bits: bits, default: None, default_colon: false, debug, fields, enums: vec![], inners: vec![], debug_first: false, vis: 0, decoys: 0, derives: 0 }
+    // one inner type in four is not a bitfield but a hand-written newtype offering the two conversions
+    let handwritten = if s.chance(1, 4) { s.range(1, 2) as u8 } else { 0 };
+    if handwritten != 0 {
+        fields.clear();
+    }
+    Layout { name: name.to_string(), base_bits: bits, default: None, default_colon: false, debug, fields, enums: vec![], inners: vec![], debug_first: false, vis: 0, decoys: 0, derives: 0, handwritten }
 }
 
 /// split w into `parts` positive integers
@@ -398,7 +411,7 @@ pub fn build_layout(p: &Profile, words: &[u32]) -> Layout {
 }
 
 pub fn build_layout_on(p: &Profile, s: &mut Src, bits: u32) -> Layout {
-    let mut l = Layout { name: "S".into(), base_bits: bits, default: None, default_colon: false, debug: p.debug, fields: vec![], enums: vec![], inners: vec![], debug_first: false, vis: 0, decoys: 0, derives: 0 };
+    let mut l = Layout { name: "S".into(), base_bits: bits, default: None, default_colon: false, debug: p.debug, fields: vec![], enums: vec![], inners: vec![], debug_first: false, vis: 0, decoys: 0, derives: 0, handwritten: 0 };
     let mut occupied = 0u128;
     let n_fields = s.range(1, p.max_fields);
     let mut forced_kind_done = p.force_kind.is_none();
@@ -687,7 +700,16 @@ pub fn build_layout_on(p: &Profile, s: &mut Src, bits: u32) -> Layout {
         let i = s.below(n as u32) as usize;
         let j = (i + 1) % n;
         let taken = |l: &Layout, nm: &str| l.fields.iter().any(|f| f.name == nm);
-        match s.below(4) {
+        match s.below(5) {
+            4 if n >= 2 => {
+                // an idiomatic companion name: `x_raw`, `x_mask`, `try_with_x`, `is_x` ... next to `x` (no method
+                // of that name is generated for `x`, so the pair is legal)
+                let base = l.fields[i].name.strip_prefix("r#").unwrap_or(&l.fields[i].name).to_string();
+                let nm = if s.chance(1, 2) { format!("{}{}", base, s.pick(&NAME_SUFFIXES)) } else { format!("{}{}", s.pick(&NAME_PREFIXES), base) };
+                if !taken(&l, &nm) {
+                    l.fields[j].name = nm;
+                }
+            }
             0 => {
                 // a name the templates use for their own parameters and locals
                 let nm = s.pick(&["index", "effective_index", "field_value", "value", "mask", "shift", "result", "one"]);
